@@ -178,6 +178,16 @@ fn check_modify(input: &ModIn, case: &mut Case) -> Result<(), Fail> {
     case.nontrivial = old.version != new_edns.version || old.udp != new_edns.udp;
     case.class(if *whole { "opt-replaced" } else { "opt-fields-edited" });
     let codes: Vec<OPTCode> = new_edns.options.iter().map(|(k, v)| OPTCode { code: *k, data: std::borrow::Cow::Owned(v.0.clone()) }).collect();
+    // baseline: the parsed packet written back untouched must frame (one OPT found by the walker); if it does not, the
+    // other records are re-serialised wrongly (C11's statement) and the OPT cannot be located: no claim for that form
+    let mut base_ok = [true, true];
+    for compressed in [false, true] {
+        let framed = if compressed { ser_compressed(&pk) } else { ser_plain(&pk) }
+            .ok()
+            .and_then(|b| walk(&b).ok().map(|w| w.end == b.len() && w.records.iter().filter(|r| r.rtype == 41 && r.section == 2).count() == 1))
+            .unwrap_or(false);
+        base_ok[compressed as usize] = framed;
+    }
     if *whole {
         lib("opt_mut", || *pk.opt_mut() = Some(OPT { opt_codes: codes.clone(), udp_packet_size: new_edns.udp, version: new_edns.version }))?;
     } else {
@@ -192,6 +202,10 @@ fn check_modify(input: &ModIn, case: &mut Case) -> Result<(), Fail> {
     let named = simple_dns::RCODE::from(*new_rcode);
     lib("rcode_mut", || *pk.rcode_mut() = named)?;
     for compressed in [false, true] {
+        if !base_ok[compressed as usize] {
+            case.class("unmodified-packet-does-not-frame-when-written-back:no-claim");
+            continue;
+        }
         let out = if compressed { ser_compressed(&pk) } else { ser_plain(&pk) }.map_err(|f| Fail::new("c09:build-failed", f.msg))?;
         let what = if compressed { "compressed" } else { "plain" };
         let w = walk(&out).map_err(|e| Fail::new("c09:unwalkable", format!("{} output after opt_mut does not walk: {:?}", what, e)))?;
